@@ -165,5 +165,12 @@ func ZZ_C14_generic() {
 			rt.Assert(b[4+i] == 0, "generic:zero-padded")
 		}
 	}
+	// "the given header": the message keeps what it was given when the caller goes on to use its slice
+	typ := m.Type()
+	for i := range hdr {
+		hdr[i] ^= rt.Byte(rt.N("mask", i))
+	}
+	rt.Assert(rt.BytesEq(m.ToBytes(), b), "generic:keeps-given-header")
+	rt.Assert(m.Type() == typ, "generic:keeps-type")
 	rt.Reach("end")
 }
